@@ -7,7 +7,16 @@ import Glom.Generated.C06Facts
   uncached handler lookup, every `_MAX_CACHE`, every call (an arbitrary adaptive
   strategy over the two kinds of queries a call can make of the library's shared
   state), and every finite history of calls, PATH_STAR toggles and
-  registrations.
+  registrations — on any of the registries a process holds (module-level,
+  one per Glommer), of any type: in particular of a *base* of a type whose
+  handler an earlier call has memoised (`c06_register_related`,
+  `c06_register_base_wins`).
+
+  `Vars`: `c06_vars_*` — on a heap of dict objects, evaluating a spec that
+  holds `Vars(<dict>, **defaults)` writes only the ScopeVars object created
+  for that evaluation; the dict the spec (and the caller) holds is unchanged,
+  and every evaluation reads what the value-level reference gives, whatever
+  earlier evaluations wrote.
 
   *partial*: the "inputs untouched" half of the property is carried by the
   interpreter model by construction (its values are immutable) and by the
@@ -21,7 +30,9 @@ variable {P H O R : Type}
 
 /-- **Facts obligation** (regenerated from /repo on every run): `Path.from_text` is the
     check / overflow-bypass / store / return sequence modelled by `fromText`, keyed per PATH_STAR;
-    `get_handler` memoises under `(type, op)`; `register` and `register_op` reset the memo. -/
+    `get_handler` memoises under `(type(obj), op)` — the exact type; `register` and `register_op`
+    reset the memo wholesale; `Vars.glomit` builds a `ScopeVars` from the spec's mapping and
+    `ScopeVars.__init__` copies it (`dict(base)`, then `update(defaults)`) as `scopeVarsInit` does. -/
 theorem c06_facts_wf :
     Glom.Generated.fromTextShape =
       ["cache = cls._CACHE[PATH_STAR]",
@@ -32,7 +43,10 @@ theorem c06_facts_wf :
     Glom.Generated.getHandlerShape =
       ["cache_key = (obj_type, op)", "if cache_key not in self._type_cache",
        "return self._type_cache[cache_key]", "self._type_cache[cache_key] = ret"] ∧
-    Glom.Generated.memoResetBy = [("register", true), ("register_op", true)] := by
+    Glom.Generated.memoResetBy = [("register", true), ("register_op", true)] ∧
+    Glom.Generated.memoKeyType = "obj_type = type(obj)" ∧
+    Glom.Generated.scopeVarsInitShape = ["self.__dict__ = dict(base)", "self.__dict__.update(defaults)"] ∧
+    Glom.Generated.varsGlomitShape = ["return ScopeVars(self.base, self.defaults)"] := by
   decide
 
 /-- **The path cache never changes an answer**: under the invariant, `Path.from_text` returns the
@@ -88,18 +102,18 @@ theorem c06_history (parse : Bool → String → P) (compute : R → String × S
       have hrest := ih { w with pathStar := b } hinv
       simp only [runHistory, stepWorld, refHistory]
       exact hrest
-    | register f =>
-      have hrest := ih { w with reg := f w.reg, hc := [] } hstep
+    | register rg f =>
+      have hrest := ih { w with reg := setAt w.reg rg (f (w.reg rg)), hc := setAt w.hc rg [] } hstep
       simp only [runHistory, stepWorld, refHistory]
       exact hrest
 
 /-- the initial world (empty caches) satisfies the invariant: the theorems apply to every
     reachable state of the library -/
-theorem c06_init_inv (parse : Bool → String → P) (compute : R → String × String → Option H) (reg : R) :
+theorem c06_init_inv (parse : Bool → String → P) (compute : R → String × String → Option H) (reg : Nat → R) :
     WorldInv parse compute ({ reg := reg } : World P H R) ∧ SizeOK 0 ({} : PathCache P) := by
   refine ⟨⟨?_, ?_⟩, ?_⟩
   · intro b k v hm; cases b <;> simp [PathCache.get] at hm
-  · intro k h hm; cases hm
+  · intro rg k h hm; cases hm
   · intro b; cases b <;> simp [PathCache.get]
 
 /-- **Warming the caches changes nothing.**  Whatever calls were made before (the same call, other
@@ -118,6 +132,79 @@ theorem c06_after_any_calls (parse : Bool → String → P) (compute : R → Str
   | nil => simp [refHistory]
   | cons c r ih => simp only [List.map_cons, List.cons_append, refHistory, ih]
 
+/-- **A registration of a related type is seen by the next lookup.**  Whatever was looked up
+    before (in particular the very same `(type, op)`, whose handler is then memoised under the
+    exact type of the target), after `register` on registry `rg` a lookup in that registry gives
+    what the new registrations give; the other registries are not affected by it. -/
+theorem c06_register_related (parse : Bool → String → P) (compute : R → String × String → Option H)
+    (maxCache : Nat) (before : List (HOp P H O R)) (rg : Nat) (f : R → R) (strat : Strategy P H O) (fuel : Nat)
+    (w : World P H R) (hinv : WorldInv parse compute w) :
+    (runHistory parse compute maxCache w (before ++ [.register rg f, .call strat fuel])).1 =
+      refHistory parse compute w.pathStar w.reg (before ++ [.register rg f, .call strat fuel]) :=
+  (c06_history parse compute maxCache _ w hinv).1
+
+/-- the reference of a lookup–register–lookup history, spelled out: the second lookup answers
+    with the registrations *after* the `register`, the first with those before -/
+theorem c06_lookup_register_lookup (parse : Bool → String → P) (compute : R → String × String → Option H)
+    (maxCache : Nat) (rg : Nat) (f : R → R) (ty op : String) (w : World P H R) (hinv : WorldInv parse compute w) :
+    (runHistory parse compute maxCache w
+        [.call (lookup1 rg ty op) 2, .register rg f, .call (lookup1 rg ty op) 2]).1 =
+      [some (compute (w.reg rg) (ty, op)), some (compute (f (w.reg rg)) (ty, op))] := by
+  rw [(c06_history parse compute maxCache _ w hinv).1]
+  simp [refHistory, runPure, lookup1, setAt]
+
+/-- **Registering a base type wins over the default for its subclasses** (concrete registry:
+    types with their MRO): when `X` is in the MRO of `sub` and no type before `X` in that MRO has a
+    handler for `op`, then after `register(X, op=h)` the uncached lookup for an object of exact
+    type `sub` is `h`. -/
+theorem c06_register_base_wins (r : TReg) (X sub op : String) (kw : List (String × Tag)) (h : Tag)
+    (hk : assocGet kw op = some h) (hx : X ∈ r.mroOf sub)
+    (hbefore : ∀ c, c ∈ (r.mroOf sub).takeWhile (· != X) → assocGet r.entries (c, op) = none) :
+    (r.register X kw).compute (sub, op) = some h := by
+  have hf := firstRegistered_register r.entries X kw op h hk (r.mroOf sub) hx hbefore
+  simp only [TReg.compute, TReg.register, TReg.mroOf] at hf ⊢
+  rw [hf]
+
+/-- … and in every history: a lookup for `sub`, then `register(X, op=h)` for a base `X` of `sub`,
+    then the same lookup — the second one answers `h`, although the first one memoised the old
+    handler under `(sub, op)`. -/
+theorem c06_register_base_history (parse : Bool → String → P) (maxCache : Nat) (rg : Nat)
+    (X sub op : String) (kw : List (String × Tag)) (h : Tag) (w : World P Tag TReg)
+    (hinv : WorldInv parse TReg.compute w)
+    (hk : assocGet kw op = some h) (hx : X ∈ (w.reg rg).mroOf sub)
+    (hbefore : ∀ c, c ∈ ((w.reg rg).mroOf sub).takeWhile (· != X) → assocGet (w.reg rg).entries (c, op) = none) :
+    (runHistory parse TReg.compute maxCache w
+        [.call (lookup1 rg sub op) 2, .register rg (fun r => r.register X kw), .call (lookup1 rg sub op) 2]).1 =
+      [some ((w.reg rg).compute (sub, op)), some (some h)] := by
+  rw [c06_lookup_register_lookup parse TReg.compute maxCache rg (fun r => r.register X kw) sub op w hinv,
+    c06_register_base_wins (w.reg rg) X sub op kw h hk hx hbefore]
+
+/-- **`Vars`: an evaluation writes only its own ScopeVars object.**  On a heap of dict objects,
+    evaluating a spec that holds `Vars(<dict at base>, **defaults)` with any reads / writes
+    (`S.v.name`, `A.v.name`): every dict object that existed before — the one the spec and the
+    caller hold included — is unchanged, and the reads are those of the value-level reference. -/
+theorem c06_vars_frame {V : Type} (h : VHeap V) (base : Nat) (defaults : VDict V) (ops : List (VOp V)) :
+    (evalVars h base defaults ops).2 = refVars (h.getD base []) defaults ops ∧
+    ∀ b, b < h.length → (evalVars h base defaults ops).1.getD b [] = h.getD b [] := by
+  unfold evalVars scopeVarsInit refVars
+  simp only
+  have ha : h.length < (h ++ [List.foldl (fun d kv => dSet d kv.1 kv.2) (h.getD base []) defaults]).length := by
+    simp
+  obtain ⟨h1, _, h3⟩ := runVOps_spec ops _ h.length ha
+  refine ⟨?_, ?_⟩
+  · rw [h1]; simp
+  · intro b hb
+    rw [h3 b (by omega)]
+    simp [List.getD_eq_getElem?_getD, List.getElem?_append_left hb]
+
+/-- **`Vars`: the second evaluation of the same spec object is a first evaluation.**  Whatever
+    the first evaluation wrote, the reads of the second are the reference ones for the dict the
+    spec holds, which is still what it was. -/
+theorem c06_vars_history {V : Type} (h : VHeap V) (base : Nat) (hb : base < h.length) (defaults : VDict V)
+    (ops1 ops2 : List (VOp V)) :
+    (evalVars (evalVars h base defaults ops1).1 base defaults ops2).2 = refVars (h.getD base []) defaults ops2 := by
+  rw [(c06_vars_frame _ base defaults ops2).1, (c06_vars_frame h base defaults ops1).2 base hb]
+
 /-! ### non-vacuity: a concrete strategy, a warm and an overflowing cache -/
 
 private def parse0 (star : Bool) (_t : String) : Bool := star
@@ -125,16 +212,43 @@ private def parse0 (star : Bool) (_t : String) : Bool := star
 private def strat0 : Strategy Bool Nat (Bool × Option Nat) := fun answers =>
   match answers with
   | [] => .inl (.path "a.*")
-  | [.path _] => .inl (.handler "dict" "get")
+  | [.path _] => .inl (.handler 0 "dict" "get")
   | [.path p, .handler h] => .inr (p, h)
   | _ => .inr (false, none)
 
-example : (runHistory (R := Nat) parse0 (fun reg _ => some reg) 0 { reg := 7 }
-    [.call strat0 5, .call strat0 5, .setStar false, .call strat0 5, .register (· + 1), .setStar true,
-     .call strat0 5]).1 =
-    [some (true, some 7), some (true, some 7), some (false, some 7), some (true, some 8)] := by decide
+example : (runHistory (R := Nat) parse0 (fun reg _ => some reg) 0 { reg := fun _ => 7 }
+    [.call strat0 5, .call strat0 5, .setStar false, .call strat0 5, .register 0 (· + 1), .setStar true,
+     .call strat0 5, .register 1 (· + 5), .call strat0 5]).1 =
+    [some (true, some 7), some (true, some 7), some (false, some 7), some (true, some 8), some (true, some 8)] := by
+  decide
 
-example : WorldInv (H := Nat) (R := Nat) parse0 (fun reg _ => some reg) { reg := 7 } :=
-  (c06_init_inv parse0 _ 7).1
+example : WorldInv (H := Nat) (R := Nat) parse0 (fun reg _ => some reg) { reg := fun _ => 7 } :=
+  (c06_init_inv parse0 _ _).1
+
+/-! a base registered after its subclass was looked up (the hypotheses of `c06_register_base_wins`
+    hold for a concrete hierarchy); without "no nearer registered type" the conclusion fails -/
+
+private def reg0 : TReg := { mro := [("Child", ["Child", "Base", "object"]), ("Base", ["Base", "object"])] }
+
+example : (reg0.register "Base" [("get", "shout")]).compute ("Child", "get") = some "shout" := by decide
+example : reg0.compute ("Child", "get") = some "default" := by decide
+example : ((reg0.register "Child" [("iterate", "it")]).register "Base" [("get", "shout")]).compute ("Child", "get")
+    = some "default" := by decide
+
+private def lookChild : Strategy Bool Tag (Option Tag) := lookup1 1 "Child" "get"
+
+example : (runHistory parse0 TReg.compute 0 { reg := fun _ => reg0 }
+    [.call lookChild 2, .register 1 (fun r => r.register "Base" [("get", "shout")]), .call lookChild 2,
+     .register 0 (fun r => r.register "Base" [("get", "other")]), .call lookChild 2]).1 =
+    [some (some "default"), some (some "shout"), some (some "shout")] := by decide
+
+/-! `Vars`: two evaluations of a spec holding the dict at address 0; the second does not see the
+    first one's write, and the dict at address 0 is what it was -/
+
+example : (evalVars [[("floor", 0)]] 0 [] [.read "last", .write "last" 1, .read "last"]).2 = [none, some 1] := by
+  decide
+example : (evalVars (evalVars [[("floor", 0)]] 0 [] [.write "last" 1]).1 0 [] [.read "last", .read "floor"]).2
+    = [none, some 0] := by decide
+example : ((evalVars [[("floor", 0)]] 0 [("d", 5)] [.write "floor" 9]).1).getD 0 [] = [("floor", 0)] := by decide
 
 end Glom.Props.C06
